@@ -404,6 +404,12 @@ def gen_world(seed, classes=ALL_CLASSES, want_constraints=0.3, node_p=0.25, tag=
             ign = []
         if ign:
             args["elements_to_ignore"] = ign
+    rdup = random.Random(H(seed, tag, "dup-edge"))
+    if not dag and not node_mode and args.get(cons_key) and rdup.random() < 0.3:
+        # a subset constraint is a *set* of edges: listing one of them twice changes nothing
+        c_ = rdup.choice(args[cons_key])
+        if len(c_) >= 2:
+            c_.insert(rdup.randrange(len(c_) + 1), list(rdup.choice(c_)))
     rla = random.Random(H(seed, tag, "length-attr-alone"))
     if dag and not node_mode and args.get(cons_key) and "length_attr" not in args and rla.random() < 0.3:
         # a length attribute without a length coverage: a legal call (the attribute also serves path lengths / edge
